@@ -103,4 +103,19 @@ theorem canonical_mk (m e : Nat) (hm : m < 2 ^ 24) (he : e < 256)
   simp only [h1, h2]
   omega
 
+theorem nbytes_eq_bitlength (v : Nat) : nbytes v = (bitLength v + 7) / 8 := by
+  unfold bitLength
+  by_cases h0 : v = 0
+  · subst h0; simp [nbytes_zero]
+  · simp only [h0, if_false]
+    obtain ⟨h1, h2⟩ := nbytes_bounds v h0
+    have hpos : 1 ≤ nbytes v := by rw [nbytes_pos h0]; omega
+    generalize nbytes v = nb at *
+    have e1 : (256:Nat) ^ (nb - 1) = 2 ^ (8 * (nb - 1)) := by rw [Nat.pow_mul]
+    have e2 : (256:Nat) ^ nb = 2 ^ (8 * nb) := by rw [Nat.pow_mul]
+    rw [e1] at h1; rw [e2] at h2
+    have hl : Nat.log2 v < 8 * nb := (Nat.log2_lt h0).mpr h2
+    have hg : 8 * (nb - 1) ≤ Nat.log2 v := (Nat.le_log2 h0).mpr h1
+    omega
+
 end BtcVerif
